@@ -568,6 +568,17 @@ fn gen_factorize(ctx: &mut Ctx) {
             all_three(ctx, &n, &format!("{p}:{k}"), bits <= 20);
         }
     }
+    // composites that are strong pseudoprimes to every small fixed base set (2..17, 2..37): the
+    // drivers must split them whatever shortcut the primality test takes
+    for (n, exp) in [
+        ("341550071728321", "10670053:1,32010157:1"),
+        ("3825123056546413051", "149491:1,747451:1,34233211:1"),
+        ("2049303430369926", "2:1,3:1,10670053:1,32010157:1"),
+        ("3215031751", "151:1,751:1,28351:1"),
+    ] {
+        let nb: BigInt = n.parse().unwrap();
+        all_three(ctx, &nb, exp, false);
+    }
     // even numbers: 2^a * m
     for _ in 0..ctx.pick(40, 600) {
         let a = 1 + ctx.rng.below(40) as usize;
